@@ -64,41 +64,39 @@ def lineUpToLF : Bytes → Option Bytes
 def stripL (d : Bytes) : Bytes := d.dropWhile isOWS
 def stripR (d : Bytes) : Bytes := (d.reverse.dropWhile isOWS).reverse
 
-/-- a line image ending in CR: the part before the CR -/
-def chopCR (l : Bytes) : Option Bytes :=
+/-- `\r?` in front of the line's LF: a trailing CR belongs to the terminator -/
+def chopCR (l : Bytes) : Bytes :=
   match l.getLast? with
-  | some c => if c = CR then some l.dropLast else none
-  | none => none
+  | some c => if c = CR then l.dropLast else l
+  | none => l
 
-/-- the optional group `Host:[ \t]*(.*?)[ \t]*` followed by `\r\n`, tried right after a CRLF:
-    greedy OWS, then the shortest value such that only OWS and CRLF follow; `.` excludes LF, so the CRLF is
-    the one that ends at the first LF. `some v` = the group matched with `group(1) = v`. -/
+/-- the optional group `Host:[ \t]*(.*?)[ \t]*` followed by `\r?\n`, tried right after a line terminator:
+    greedy OWS, then the shortest value such that only OWS and the terminator follow; `.` excludes LF, so the
+    terminator is the one at the first LF (with the CR in front of it, if any). `some v` = the group matched with
+    `group(1) = v`. -/
 def hostGroup (rest : Bytes) : Option Bytes :=
   if startsCI hostLit rest then
     match lineUpToLF (stripL (rest.drop 5)) with
     | none => none
-    | some l => (chopCR l).map stripR
+    | some l => some (stripR (chopCR l))
   else none
 
-def startsCRLF : Bytes → Bool
-  | a :: b :: _ => a = CR && b = LF
-  | _ => false
+/-- `\r?\n` at the start: the blank line -/
+def startsEOL : Bytes → Bool
+  | a :: tl => a = LF || (a = CR && match tl with | b :: _ => b = LF | [] => false)
+  | [] => false
 
-/-- `re.search(rb"\r\n(?:Host:[ \t]*(.*?)[ \t]*)?\r\n", data, re.IGNORECASE)` with its leftmost-match semantics:
-    at every CRLF try the Host group, then the empty alternative (CRLF CRLF), else move on.
+/-- `re.search(rb"\r?\n(?:Host:[ \t]*(.*?)[ \t]*)?\r?\n", data, re.IGNORECASE)` with its leftmost-match semantics:
+    behind every LF (a CR in front of it is absorbed by `\r?`) try the Host group, then the empty alternative (a blank
+    line), else move on.
     `ok (some v)` = `m.group(1) = v` non-empty; `ok none` = matched with empty/absent group; `needMore` = no match. -/
 def scan : Bytes → Res (Option Bytes)
   | [] => .needMore
   | a :: tl =>
-    if a = CR then
-      match tl with
-      | [] => .needMore
-      | b :: rest =>
-        if b = LF then
-          match hostGroup rest with
-          | some v => .ok (if v.isEmpty then none else some v)
-          | none => if startsCRLF rest then .ok none else scan tl
-        else scan tl
+    if a = LF then
+      match hostGroup tl with
+      | some v => .ok (if v.isEmpty then none else some v)
+      | none => if startsEOL tl then .ok none else scan tl
     else scan tl
 
 /-- `_get_host_header(context, data_client, data_server)` -/
@@ -151,6 +149,10 @@ def requestLine (method target : Bytes) : Bytes := method ++ 0x20 :: (target ++ 
 def eol (lf : Bool) : Bytes := if lf then [LF] else [CR, LF]
 def renderHeadEol (lf : Bool) (reqLine : Bytes) (fs : List Field) : Bytes :=
   reqLine ++ eol lf ++ (fs.flatMap (fun f => f.body ++ eol lf) ++ eol lf)
+
+/-- every line with its own terminator (`true` = bare LF): request line, field lines, blank line -/
+def renderHeadMixed (reqLine : Bytes) (rlLf : Bool) (fs : List (Field × Bool)) (endLf : Bool) : Bytes :=
+  reqLine ++ (eol rlLf ++ (fs.flatMap (fun p => p.1.body ++ eol p.2) ++ eol endLf))
 
 /-! ## `_starts_like_quic`, `_get_client_hello` -/
 
